@@ -620,11 +620,13 @@ macro_rules! wrap_impl_uint {
                 }
                 fn pingpong(self, upper: Self) -> Self {
                     assert!(upper > Self::zero());
-                    let r = self % (upper+upper);
-                    if r < upper {
+                    // NOTE: Don't compute `upper+upper`, it may overflow.
+                    let two = Self::one() + Self::one();
+                    let r = self % upper;
+                    if (self / upper) % two == Self::zero() {
                         r
                     } else {
-                        upper+upper-r
+                        upper - r
                     }
                 }
             }
@@ -635,16 +637,19 @@ macro_rules! wrap_impl_sint {
     ($($T:ty)+) => {
         $(
             impl Wrap for $T {
-                // https://stackoverflow.com/a/707426
-                fn wrapped_between(mut self, lower: Self, upper: Self) -> Self {
+                fn wrapped_between(self, lower: Self, upper: Self) -> Self {
                     assert!(lower < upper);
                     assert!(lower >= Self::zero());
                     assert!(upper > Self::zero());
                     let range_size = upper - lower /*+ Self::one()*/;
-                    if self < lower {
-                        self += range_size * ((lower-self)/range_size + Self::one());
+                    // NOTE: Work on remainders only: `lower - self` and multiples of
+                    // `range_size` may overflow for values far below `lower`.
+                    let mut r = self % range_size;
+                    if r < Self::zero() {
+                        r += range_size;
                     }
-                    lower + (self - lower) % range_size
+                    let l = lower % range_size;
+                    lower + if r >= l { r - l } else { range_size - (l - r) }
                 }
                 fn wrapped(self, upper: Self) -> Self {
                     assert!(upper > Self::zero());
@@ -652,11 +657,18 @@ macro_rules! wrap_impl_sint {
                 }
                 fn pingpong(self, upper: Self) -> Self {
                     assert!(upper > Self::zero());
-                    let r = self.wrapped(upper+upper);
-                    if r <= upper {
+                    // NOTE: Don't compute `upper+upper`, it may overflow.
+                    let two = Self::one() + Self::one();
+                    let mut q = self / upper;
+                    let mut r = self % upper;
+                    if r < Self::zero() {
+                        r += upper;
+                        q -= Self::one();
+                    }
+                    if q % two == Self::zero() {
                         r
                     } else {
-                        upper+upper-r
+                        upper - r
                     }
                 }
             }
